@@ -19,7 +19,8 @@ from .crop import xyz_site
 
 A_POOL = [1, 2, 3, 4]
 A_UNSYNCED = [7, 8]  # coordinates only ever used by un-acknowledged (sync=False) harvests
-B_POOLS = {"int": [10, 20, 30], "str": ["p", "q", "r"]}
+# labels of one coordinate: ints, strings of different lengths, ints and a float
+B_POOLS = {"int": [10, 20, 30], "str": ["p", "qq", "rrrr"], "num": [10, 20.5, 30]}
 
 
 def val(kind, a, b, ver):
@@ -118,7 +119,7 @@ def run_c05(ctx):
     with_ext = t.flag(1, 2, "with-ext") or os.environ.get("XSIM_C05_FORCE_EXT") == "1"
     data_name = os.path.join(root, "full" + (ext if with_ext else ""))
     file_name = os.path.join(root, "full" + ext)
-    btype = t.pick(["int", "str"], "btype")
+    btype = t.pick(["int", "str", "num"], "btype")
     B_POOL = B_POOLS[btype]
     model = HarvestModel(kind)
     fn = calllog.make_fn(kind, ["a", "b", "ver"])
